@@ -71,6 +71,7 @@ pub struct Labels {
     pub internal_defs: u32,
     pub internal_def_forward: u32,
     pub let_over_lambda: u32,
+    pub closure_per_round: u32,
     pub one_armed_if: u32,
     pub tail_statements: u32,
     pub applies: u32,
@@ -998,7 +999,39 @@ impl<'a, 'b> Gen<'a, 'b> {
         let n = 1 + self.ch.below(self.cfg.max_forms);
         let depth = self.cfg.max_depth;
         for _ in 0..n {
-            match self.ch.weighted(&[3, 4, 2, 6]) {
+            match self.ch.weighted(&[3, 4, 2, 6, 1]) {
+                4 => {
+                    // a self tail call that collects one closure per round; each closure must keep the bindings of
+                    // its own round: (define (c n acc) (if (<= n 0) acc (c (- n 1) (cons (lambda ...) acc))))
+                    let name = format!("collect{}", forms.len());
+                    let with_set = self.cfg.set && self.ch.chance(1, 2);
+                    let closure = if with_set {
+                        Expr::Lambda(
+                            Formals { fixed: vec!["d".into()], rest: None },
+                            Box::new(Body { defs: vec![], exprs: vec![Expr::Set("n".into(), Box::new(app("+", vec![var("n"), var("d")]))), var("n")] }),
+                        )
+                    } else {
+                        Expr::Lambda(Formals { fixed: vec!["d".into()], rest: None }, body1(app("+", vec![var("n"), var("d")])))
+                    };
+                    let rec = Expr::App(Box::new(var(&name)), vec![app("-", vec![var("n"), Expr::Int(1)]), app("cons", vec![closure, var("acc")])]);
+                    let body = Expr::If(Box::new(app("<=", vec![var("n"), Expr::Int(0)])), Box::new(var("acc")), Some(Box::new(rec)));
+                    let lam = Expr::Lambda(Formals { fixed: vec!["n".into(), "acc".into()], rest: None }, body1(body));
+                    forms.push(Form::Define(Def { name: name.clone(), value: lam, sugar: self.ch.chance(1, 2) }));
+                    let k = 2 + self.ch.below(3) as i32;
+                    let made = format!("made{}", forms.len());
+                    forms.push(Form::Define(Def {
+                        name: made.clone(),
+                        value: Expr::App(Box::new(var(&name)), vec![Expr::Int(k), Expr::Quote(Datum::List(vec![], None))]),
+                        sugar: false,
+                    }));
+                    // every closure applied, twice (the second round shows what the first one assigned)
+                    for d in [self.ch.range(0, 5) as i32, 0] {
+                        let caller = Expr::Lambda(Formals { fixed: vec!["t".into()], rest: None }, body1(Expr::App(Box::new(var("t")), vec![Expr::Int(d)])));
+                        forms.push(Form::Expr(app("map", vec![caller, var(&made)])));
+                    }
+                    self.labels.closures_escaping += 1;
+                    self.labels.closure_per_round += 1;
+                }
                 0 => {
                     let name = self.fresh_var(&scope);
                     // a redefinition keeps the type, so that procedures defined earlier stay well typed
